@@ -8,7 +8,7 @@ DECIDED = ("ownership pairing: R12.1 the guard built by every install root recor
            "the same installation (or (null, 0) where nothing is mapped); R12.2 the guard's destructor releases (self.ptr, self.size) exactly "
            "once on every normal path with a non-null pointer and never with a null one, the guard type is neither Clone nor Copy and is "
            "constructed at one site only; R12.3 the release primitive has no call site outside the allocator's reject edge and the "
-           "destructor; R12.6 the guard saved as many bytes as it restores, at the address written (C03 R3.8: otherwise its destructor panics before the release); R12.5 every mapping the placement search obtains is returned or released before the next probe (C11 R11.1/R11.2); R12.4 on every normal path of an install root the allocation result reaches the stored guard (with C02 R2.3/R2.4: "
+           "destructor; R12.7 every protection change before an entry or restoring write reaches no further than the pages written; R12.6 the guard saved as many bytes as it restores, at the address written (C03 R3.8: otherwise its destructor panics before the release); R12.5 every mapping the placement search obtains is returned or released before the next probe (C11 R11.1/R11.2); R12.4 on every normal path of an install root the allocation result reaches the stored guard (with C02 R2.3/R2.4: "
            "every guard is dropped exactly once when the injector goes away)")
 NOT_DECIDED = "a mapping left behind by an installation that fails after allocating (outside the property's 'successful installation')"
 
@@ -134,6 +134,11 @@ def run(ck, models, tier):
             # R12.4 the release comes after the restore
             k4 = restore_before_release(ck, tm, g, "R12.4")
             ck.floor("R12.4", "drop-paths-with-restore-and-release", k4, 1, tm.target)
+            # R12.7 the protection changes made on the way reach no further than the pages written: a wider one is refused when the next page
+            # is unmapped (install panics after the trampoline was mapped / destructor panics before the release) or makes a foreign page executable
+            k7 = patches.protection_tightness(ck, "R12.7", tm, g)
+            if tm.os != "macos":        # macOS changes protections on its private alias of the page, not on the live page
+                ck.floor("R12.7", "protection-changes-checked-for-tightness", k7, 1, tm.target)
             # R12.6 the destructor gets as far as the release: what it restores is what the installation wrote and saved (C03 R3.8) - a
             # guard that saved fewer bytes than it will slice out panics in its destructor before the mapping is released
             restore_lands_on_entry(ck, tm, g, "R12.6", patches.roots_and_roles(tm))
